@@ -63,12 +63,19 @@ def run(ctx):
     sp.run_histories(ctx, rng, 8 if quick else 100, make_groups, 12, ("fail", "nan"), (), owns, "failure_tolerance_long")
     # reduced-precision parameters: the computed root must be finite IN THE STORED DTYPE (natural overflow is the outcome "nan")
     lp = []
-    for _ in range(12 if quick else 150):
+    for i in range(18 if quick else 200):
         g = family.draw_group(rng, rng.choice(["v2x3", "fuse", "s0v", "m2x2"]), kind="shampoo", method="eigen", freq=1, start=1, tol=rng.choice([0, 1, 3]))
-        g["eps"] = rng.choice([1e-12, 1e-10, 1e-3])
         g["override"] = rng.choice([0, 1, 2])
         g["beta2"] = 1.0
-        d = family.make_draw(rng, [g], dtype=rng.choice(["float16", "float16", "bfloat16"]), pdtype="float32")
+        if i % 3 == 2:
+            # float32 parameters with float64 factors: a root that is finite in float64 can exceed 3.4e38 (an exactly zero statistic
+            # - one-hot gradients - with a tiny epsilon)
+            g["eps"] = rng.choice([1e-45, 1e-60, 1e-80])
+            d = family.make_draw(rng, [g], dtype="float32", pdtype="float64")
+            d.update(grad_mode="sparse_first", sparse_steps=rng.choice([2, 100]))
+        else:
+            g["eps"] = rng.choice([1e-12, 1e-10, 1e-3])
+            d = family.make_draw(rng, [g], dtype=rng.choice(["float16", "float16", "bfloat16"]), pdtype="float32")
         ab = sp.abstract_of(d)
         lp.append((d, sp.random_history(rng, d, ab, 6, (), ())))
     res = sp.pool_map(sp.history_task, lp)
